@@ -71,6 +71,22 @@ Step(c, sudo, call) ==
      [] call.op = "switchuser" -> SwitchUser(c, call.a)
      [] OTHER                  -> NoOp(c)
 
+\* ---- the user database: user::from_uid / current / name ("Get a user by user id", "real user ... behind sudo") ----------------
+\* pw = the passwd table in file order, entries [uid, gid, name, home, shell]; the first entry with the uid wins
+PwIdx(pw, uid) == {i \in 1..Len(pw) : pw[i].uid = uid}
+PwFound(pw, uid) == PwIdx(pw, uid) # {}
+PwGet(pw, uid) == pw[CHOOSE i \in PwIdx(pw, uid) : \A j \in PwIdx(pw, uid) : i <= j]
+NoUser == "User::DoesNotExistById"
+\* the user behind sudo is looked up as well (and must exist) exactly when getrids names another uid
+FromUid(pw, sudo, uid) ==
+   IF ~PwFound(pw, uid) THEN [o |-> NoUser]
+   ELSE LET e == PwGet(pw, uid)  r == GetRids(sudo, e.uid, e.gid) IN
+        IF r[1] # uid /\ ~PwFound(pw, r[1]) THEN [o |-> NoUser]
+        ELSE LET real == IF r[1] # uid THEN PwGet(pw, r[1]) ELSE e IN
+             [o |-> "ok", uid |-> e.uid, gid |-> e.gid, name |-> e.name, home |-> e.home, shell |-> e.shell, ruid |-> r[1], rgid |-> r[2],
+              realname |-> real.name, realhome |-> real.home, realshell |-> real.shell, is_root |-> (e.uid = Root)]
+Current(pw, sudo, c) == FromUid(pw, sudo, c.ru)
+
 \* ---- what can still be reached: the set of uids the process can make effective again, now or later -----------------------
 CanRegainRoot(c) == Root \in {c.ru, c.eu, c.su}
 =============================================================================
